@@ -430,8 +430,7 @@ def run(ctx, replay=None):
     # compile-time leg first: cheap, and its verdicts are independent of the run-time stream
     ct, stray = ct_leg()
     if stray:
-        log("MACHINERY-ERROR compile-time leg does not compile against %s:\n  %s" % (lib.REPO, "\n  ".join(stray[:6])))
-        return 2
+        raise lib.MachineryError("compile-time leg does not compile against %s:\n  %s" % (lib.REPO, "\n  ".join(stray[:12])))
     ct_failed = {cid: r for cid, r in ct.items() if not r["ok"]}
     ct_reported = 0
     for cid, r in sorted(ct_failed.items()):
